@@ -3,8 +3,10 @@
 P: Props/C18.v (footprint = frame theorem; any-order theorem for evaluations in fresh children of
    a shared chain; generic interleaving theorem under the footprint discipline).
 C: 2-4 REAL threads evaluate fragment programs concurrently, each in its own child of ONE shared
-   prepared context, under an explicit schedule (gate at the entry of yaql.language.runner.call,
-   i.e. function-dispatch granularity; lambdas applied per element dispatch through it as well);
+   prepared context, under an explicit schedule; scheduling points: the entry of yaql.language.runner.call
+   (function dispatch; lambdas applied per element dispatch through it as well), between overload selection and the
+   payload, before every step of a lazy sequence that passes the `#iter` limiter (iterator-step granularity), between
+   the tokens of a run-time parse (ply.lex.Lexer.token) and inside host-defined smart types (HOOK);
    each thread's (tick log, result) is compared with the reference interpreter run alone (inside Coq).
 O: the same scheduler over a pool of statements touching every library module: per-thread result =
    sequential baseline; snapshots of the shared context, of every node of every shared statement, of
@@ -22,10 +24,11 @@ RULE = ("C: pairs/triples of generated fragment programs (tick probability 0.3) 
         "merges when <= 200 else seeded random merges of the threads' dispatch steps; O: pool of 40 statements over all "
         "stdlib modules x documents assigned to 2-4 threads, random merges; non-trivial = at least two threads have "
         ">= 3 dispatch steps and the schedule switches thread >= 3 times; distinct = (programs, schedule)")
-TRUSTED = ["the deterministic scheduler of this module (threads blocked on semaphores at runner.call entry)",
+TRUSTED = ["the deterministic scheduler of this module (threads blocked on semaphores at runner.call entry, before payloads, "
+           "before iterator steps, between tokens of run-time parses, inside host smart-type checks)",
            "Model/Eval.v reference interpreter (tied by the C04 correspondence)",
            "snapshot routines for shared objects"]
-ASSUMPTIONS = ["a thread switch is modelled at function-dispatch granularity; preemption inside C code, the GIL and CPython "
+ASSUMPTIONS = ["a thread switch is modelled at function-dispatch and iterator-step granularity; preemption inside C code, the GIL and CPython "
                "object internals are outside the model: C18 is proved for the model and partial for the runtime"]
 EXPLANATION = ("footprint/any-order/interleaving theorems + scheduled real threads compared with the solo reference "
                "interpreter + shared-object snapshots + free-running soak")
@@ -47,6 +50,18 @@ POOL = [
     "calc('$1 + 1 + 100', $.n)", "calc('$1 * 2', $.n)", "calc('[$1, $1].len() + $1', $.n)", "calc('$1.len()', $.t)",
     "$.l.select(calc('$1 - 1', $)).toList()",
 ]
+
+
+def stepping(it, point):
+    """the same lazy sequence with a scheduling point before every step"""
+    it = iter(it)
+    while True:
+        point()
+        try:
+            x = next(it)
+        except StopIteration:
+            return
+        yield x
 
 
 class Scheduler:
@@ -107,8 +122,17 @@ class Scheduler:
         def token(lexer):
             sched.gate()              # a switch between two tokens of a run-time parse
             return orig_tok(lexer)
+        from yaql.language import utils as U
+        orig_li = U.limit_iterable
+
+        def limit_iterable(iterable, limit_or_engine):
+            r = orig_li(iterable, limit_or_engine)
+            if r is iterable:
+                return r
+            return stepping(r, sched.gate)        # a switch before every step of a lazy sequence
         threads = [threading.Thread(target=self.body, args=(i,), daemon=True) for i in range(len(self.jobs))]
         used = []
+        U.limit_iterable = limit_iterable
         R.call = call
         specs.FunctionDefinition.get_delegate = get_delegate
         ply.lex.Lexer.token = token
@@ -139,6 +163,7 @@ class Scheduler:
             R.call = orig
             specs.FunctionDefinition.get_delegate = orig_gd
             ply.lex.Lexer.token = orig_tok
+            U.limit_iterable = orig_li
             HOOK[0] = None
         return used
 
@@ -170,6 +195,13 @@ def count_steps(job):
 
     def hook():
         n[0] += 1
+    from yaql.language import utils as U
+    orig_li = U.limit_iterable
+
+    def limit_iterable(iterable, limit_or_engine):
+        r = orig_li(iterable, limit_or_engine)
+        return r if r is iterable else stepping(r, hook)
+    U.limit_iterable = limit_iterable
     R.call = call
     specs.FunctionDefinition.get_delegate = get_delegate
     ply.lex.Lexer.token = token
@@ -180,6 +212,7 @@ def count_steps(job):
         R.call = orig
         specs.FunctionDefinition.get_delegate = orig_gd
         ply.lex.Lexer.token = orig_tok
+        U.limit_iterable = orig_li
         HOOK[0] = None
     return n[0] + 1, res
 
